@@ -85,3 +85,16 @@ def errorpos(r):
         cssutils.log.raiseExceptions = True
     return {"kind": "errorpos", "raised": raised, "line": line, "col": col, "msgline": ml, "msgcol": mc,
             "expline": r["expline"], "expcol": r["expcol"], "text": text}
+
+
+def on_hang(item, fname):
+    """the worker had to be killed on this row (harness/pool.py): the tokenizer did not return - same observation as a time-out"""
+    global tokenize
+    real = tokenize
+    tokenize = lambda text, full: ("TIMEOUT", [])
+    try:
+        if item.get("kind") not in ("lex", "classify"):
+            raise RuntimeError("parser did not return on %r" % (item,))
+        return globals()[fname](item)
+    finally:
+        tokenize = real
